@@ -342,6 +342,50 @@ class Seq(object):
         return out
 
 
+def _is_call(e, names):
+    return isinstance(e, ast.Call) and ((isinstance(e.func, ast.Name) and e.func.id in names) or (isinstance(e.func, ast.Attribute) and e.func.attr in names))
+
+
+def _accumulate_form(e):
+    """-> (operand expr, 'min'|'max', suffix?) for  list(accumulate(X, op))  |  list(accumulate(reversed(X), op))[::-1]  |  list(reversed(list(accumulate(reversed(X), op))))"""
+    def core(c):
+        # accumulate(Y, op) -> (Y, op)
+        if _is_call(c, ('accumulate',)) and len(c.args) == 2 and isinstance(c.args[1], ast.Name) and c.args[1].id in ('min', 'max') and not c.keywords:
+            return c.args[0], c.args[1].id
+        return None
+
+    def strip_list(c):
+        while _is_call(c, ('list',)) and len(c.args) == 1:
+            c = c.args[0]
+        return c
+    rev_outer = False
+    x = e
+    if isinstance(x, ast.Subscript) and isinstance(x.slice, ast.Slice) and x.slice.lower is None and x.slice.upper is None and isinstance(x.slice.step, ast.UnaryOp) \
+            and isinstance(x.slice.step.op, ast.USub) and isinstance(x.slice.step.operand, ast.Constant) and x.slice.step.operand.value == 1:
+        rev_outer = True
+        x = x.value
+    x = strip_list(x)
+    if _is_call(x, ('reversed',)) and len(x.args) == 1:
+        rev_outer = not rev_outer
+        x = strip_list(x.args[0])
+    c = core(x)
+    if c is None:
+        return None
+    inner, op = c
+    rev_inner = False
+    inner = strip_list(inner)
+    if _is_call(inner, ('reversed',)) and len(inner.args) == 1:
+        rev_inner = True
+        inner = inner.args[0]
+    elif isinstance(inner, ast.Subscript) and isinstance(inner.slice, ast.Slice) and inner.slice.lower is None and inner.slice.upper is None \
+            and isinstance(inner.slice.step, ast.UnaryOp) and isinstance(inner.slice.step.operand, ast.Constant) and inner.slice.step.operand.value == 1:
+        rev_inner = True
+        inner = inner.value
+    if rev_inner != rev_outer:
+        return None          # a reversed running reduction: not a form of interest
+    return inner, op, rev_inner
+
+
 class Interp(object):
     """interprets one bounded handler / operation for an arbitrary output position t"""
 
@@ -422,6 +466,23 @@ class Interp(object):
             raise Unknown('sequence %s' % ast.unparse(e)[:40])
         if isinstance(e, ast.BinOp) and isinstance(e.op, ast.Add):
             return self.concat(self.seq_or_const(e.left, env), self.seq_or_const(e.right, env))
+        # running reductions: list(accumulate(X, op)) is the prefix reduction, list(accumulate(reversed(X), op))[::-1] (or reversed again) the suffix one
+        acc = _accumulate_form(e)
+        if acc is not None:
+            inner, op, suffix = acc
+            x = self.seq(inner, env)
+            if len(x.segments) != 1:
+                raise Unknown('running %s over a sequence built from several pieces' % op)
+            n = x.length
+            me = self
+
+            def elem(i, x=x, op=op, suffix=suffix, n=n):
+                v = me.newvar('i')
+                body = x.elem(Aff.sym(v))
+                if suffix:
+                    return ('red', op, v, _aff(i), n - Aff.const(1), body)
+                return ('red', op, v, Aff.const(0), _aff(i), body)
+            return Seq(n, elem, desc='running %s (%s)' % (op, 'suffix' if suffix else 'prefix'))
         # copies: list(x), x.copy(), x[:]
         if isinstance(e, ast.Call) and isinstance(e.func, ast.Name) and e.func.id == 'list' and len(e.args) == 1:
             return self.seq(e.args[0], env)
@@ -778,6 +839,33 @@ def simplify_under(term, facts):
     return go(term, list(facts))
 
 
+def equal_under(x, y, facts):
+    """two canonical terms are equal under the facts: same structure, affine positions equal as a consequence of the facts (begin == 0 makes
+    [a .. n-t-1] and [0 .. n-t-1] the same window)"""
+    if isinstance(x, Aff) and isinstance(y, Aff):
+        return x == y or (entails(list(facts), x - y) and entails(list(facts), y - x))
+    if isinstance(x, tuple) and isinstance(y, tuple):
+        if len(x) != len(y):
+            return False
+        return all(equal_under(a, b, facts) for a, b in zip(x, y))
+    if isinstance(x, (list, frozenset)) and isinstance(y, (list, frozenset)) and not isinstance(x, tuple):
+        if len(x) != len(y):
+            return False
+        xs, ys = list(x), list(y)
+        # order-free containers: match greedily
+        for a in xs:
+            hit = None
+            for b in ys:
+                if equal_under(a, b, facts):
+                    hit = b
+                    break
+            if hit is None:
+                return False
+            ys.remove(hit)
+        return True
+    return x == y
+
+
 def _merge_adjacent(op, args, fx):
     """op(Red(op,[a,b],E), Red(op,[b+1,c],E)) = Red(op,[a,c],E)"""
     args = list(args)
@@ -877,14 +965,49 @@ def summarize_offline(func_node, kind, facts=()):
         if isinstance(st, ast.If):
             new = []
             for stmts, conds in paths:
-                new.append((stmts + list(st.body), conds + [(st.test, True)]))
-                new.append((stmts + list(st.orelse), conds + [(st.test, False)]))
+                # a path that has already returned takes no further statement
+                if stmts and isinstance(stmts[-1], ast.Return):
+                    new.append((stmts, conds))
+                    continue
+                for alt in _dnf(st.test, True):
+                    new.append((stmts + list(st.body), conds + alt))
+                for alt in _dnf(st.test, False):
+                    new.append((stmts + list(st.orelse), conds + alt))
             paths = new
         else:
-            paths = [(stmts + [st], conds) for stmts, conds in paths]
+            paths = [(stmts if (stmts and isinstance(stmts[-1], ast.Return)) else stmts + [st], conds) for stmts, conds in paths]
     for stmts, conds in paths:
         cases += _run_path(it, func_node, stmts, conds)
     return cases, it
+
+
+def _dnf(test, truth):
+    """a condition under a truth value -> alternatives, each a list of (atomic comparison, truth): `A and B` true is one alternative, false is
+    `not A` or `A and not B`; `x == y` false is `x < y` or `x > y`"""
+    if isinstance(test, ast.UnaryOp) and isinstance(test.op, ast.Not):
+        return _dnf(test.operand, not truth)
+    if isinstance(test, ast.BoolOp):
+        conj = isinstance(test.op, ast.And) == truth
+        if conj:
+            # all operands with this truth value
+            outs = [[]]
+            for v in test.values:
+                outs = [o + a for o in outs for a in _dnf(v, truth)]
+            return outs
+        outs = []
+        prefix = [[]]
+        for v in test.values:
+            for a in _dnf(v, truth):
+                outs += [p + a for p in prefix]
+            prefix = [p + a for p in prefix for a in _dnf(v, not truth)]
+        return outs
+    if isinstance(test, ast.Compare) and len(test.ops) == 1 and isinstance(test.ops[0], (ast.Eq, ast.NotEq)):
+        eq = isinstance(test.ops[0], ast.Eq) == truth
+        l, r = test.left, test.comparators[0]
+        if eq:
+            return [[(ast.Compare(left=l, ops=[ast.LtE()], comparators=[r]), True), (ast.Compare(left=l, ops=[ast.GtE()], comparators=[r]), True)]]
+        return [[(ast.Compare(left=l, ops=[ast.Lt()], comparators=[r]), True)], [(ast.Compare(left=l, ops=[ast.Gt()], comparators=[r]), True)]]
+    return [[(test, truth)]]
 
 
 def _cond_facts(it, test, truth, env):
@@ -990,7 +1113,12 @@ def _run_path(it, func_node, body, conds):
                 it.require(hi - n, 'the result has one value per sample (not shorter than the trace)', st.lineno)
                 it.require(n - hi, 'the result has one value per sample (not longer than the trace)', st.lineno)
             if seq is None:
-                raise Unknown('return %s' % ast.unparse(v)[:40])
+                try:
+                    seq = it.seq(v, env)
+                except Unknown:
+                    raise Unknown('return %s' % ast.unparse(v)[:40])
+                it.require(seq.length - n, 'the result has one value per sample (not shorter than the trace)', st.lineno)
+                it.require(n - seq.length, 'the result has one value per sample (not longer than the trace)', st.lineno)
             t = Aff.sym('t')
             for (start, length, f) in seq.pieces():
                 case = [t - start, start + length - Aff.const(1) - t, t, n - Aff.const(1) - t]
@@ -1006,6 +1134,11 @@ def _run_path(it, func_node, body, conds):
             break
         raise Unknown('statement %s' % ast.unparse(st)[:60])
     if not out_cases:
+        if _infeasible(it.facts):
+            # a path whose conditions contradict each other (`not (x == 0)` split into x < 0 under x >= 0): nothing to decide
+            it.facts = []
+            it.base_facts()
+            return []
         raise Unknown('no output term')
     facts_here = list(it.facts)
     res = [(facts_here + c, tm) for c, tm in out_cases]
